@@ -237,8 +237,16 @@ def run_enumerated(mod, sub, recipes, excluded, known_entries):
     return ctx, fail, None
 
 
+CURRENT_TIER = ['quick']      # generators may consult this for tier-dependent size bounds
+
+
+def thorough():
+    return CURRENT_TIER[0] == 'thorough'
+
+
 def _shard_entry(args):
     modname, subname, n, seed, tier, excluded, shard, nshards, shrink_budget = args
+    CURRENT_TIER[0] = tier
     try:
         import importlib
         mod = importlib.import_module(modname)
